@@ -282,6 +282,6 @@ def run_prop(prop, ctx):
     run = pipeline.Runner()
     try:
         return [twin_stream(run, prop, ctx["tier"], ctx["seed"]), directed(run, prop, ctx["tier"], ctx["seed"]),
-                pipeline.wild_stream(run, prop, ctx["tier"], ctx["seed"])]
+                pipeline.wild_stream(run, prop, ctx["tier"], ctx["seed"]), run.repeat_stream()]
     finally:
         run.close()
